@@ -105,20 +105,68 @@ func runParse(in Sx) Sx {
 	}
 	td := mkTransportDict(l[2])
 	ad := mkAppDict(l[3])
-	return Guard(func() Sx {
-		m := quickfix.NewMessage()
-		buf := bytes.NewBuffer(append([]byte(nil), raw...))
-		if err := quickfix.ParseMessageWithDataDictionary(m, buf, td, ad); err != nil {
-			return ErrV()
+	// withBody false leaves bodyBytes out: when no header field follows MsgType the parser never assigns it (it stays what
+	// the object held before; empty in a new object). No message of a session is like that (49/56/34/52 follow 35), bodyBytes
+	// is not exported and is not among the things C11 speaks of, so the reused-object comparison skips it in that one case.
+	parseInto := func(m *quickfix.Message, withBody bool) Sx {
+		return Guard(func() Sx {
+			buf := bytes.NewBuffer(append([]byte(nil), raw...))
+			if err := quickfix.ParseMessageWithDataDictionary(m, buf, td, ad); err != nil {
+				return ErrV()
+			}
+			fields := List{}
+			for _, tv := range quickfix.VerifFields(m) {
+				fields = append(fields, L(Int(tv.Tag), Bytes(tv.Value), Bytes(tv.Bytes)))
+			}
+			bb := quickfix.VerifBodyBytes(m)
+			if !withBody {
+				bb = nil
+			}
+			return OkV(L(entriesSx(&m.Header.FieldMap), entriesSx(&m.Body.FieldMap), entriesSx(&m.Trailer.FieldMap),
+				fields, Bytes(bb), Bytes(m.Bytes())))
+		})
+	}
+	fresh := parseInto(quickfix.NewMessage(), true)
+	freshHasBody := false
+	if fl, ok := fresh.(List); ok && len(fl) == 2 {
+		if parts, ok := fl[1].(List); ok && len(parts) == 6 {
+			freshHasBody = len(AtomBytes(parts[4])) > 0
 		}
-		fields := List{}
-		for _, tv := range quickfix.VerifFields(m) {
-			fields = append(fields, L(Int(tv.Tag), Bytes(tv.Value), Bytes(tv.Bytes)))
-		}
-		return OkV(L(entriesSx(&m.Header.FieldMap), entriesSx(&m.Body.FieldMap), entriesSx(&m.Trailer.FieldMap),
-			fields, Bytes(quickfix.VerifBodyBytes(m)), Bytes(m.Bytes())))
+	}
+	// the same bytes parsed into a Message object that was used for an earlier, longer message (resendMessages and
+	// applications reuse one object): what the parse exposes must not depend on the object's history
+	used := quickfix.NewMessage()
+	_ = Guard(func() Sx {
+		_ = quickfix.ParseMessageWithDataDictionary(used, bytes.NewBuffer(append([]byte(nil), earlierMessage...)), td, ad)
+		return Sym("done")
 	})
+	again := parseInto(used, freshHasBody)
+	cmp := fresh
+	if !freshHasBody {
+		cmp = parseInto(quickfix.NewMessage(), false)
+	}
+	if SxString(again) != SxString(cmp) {
+		return L(Sym("reused"), again)
+	}
+	return fresh
 }
+
+// earlierMessage: a well-formed message with routing header fields, many body fields and a signed trailer.
+var earlierMessage = func() []byte {
+	fs := []pf{{35, []byte("D")}, {49, []byte("SENDER")}, {56, []byte("TARGET")}, {34, []byte("77")},
+		{52, []byte("20240101-10:00:00.000")}, {115, []byte("ONBEHALF")}, {128, []byte("DELIVERTO")}, {50, []byte("SUB")}}
+	for i := 0; i < 40; i++ {
+		fs = append(fs, pf{pBodyTags[i%20], []byte("earlier-value-" + strconv.Itoa(i))})
+	}
+	fs = append(fs, pf{93, []byte("4")}, pf{89, []byte("SIGN")})
+	body := serFields(fs)
+	msg := append(serFields([]pf{{8, []byte("FIX.4.2")}, {9, []byte(strconv.Itoa(len(body)))}}), body...)
+	sum := 0
+	for _, c := range msg {
+		sum += int(c)
+	}
+	return append(msg, serFields([]pf{{10, []byte(fmt.Sprintf("%03d", sum%256))}})...)
+}()
 
 // ---------- generators ----------
 
